@@ -14,7 +14,7 @@ git -C /repo worktree add -q -f $wt HEAD || exit 2
 cd $wt
 if ! git apply $src/patch.diff 2>>$log; then echo "RESULT $id: patch does not apply to /repo HEAD" | tee -a $log; git -C /repo worktree remove --force $wt; exit 1; fi
 cp $src/demo_test.go $pkg/zz_seed_demo_test.go
-go build ./... >>$log 2>&1 && echo "build with patch: ok" >>$log || echo "build with patch: FAILED" >>$log
+go build $(go list -f '{{if ne .Name "main"}}{{.ImportPath}}{{end}}' ./...) >>$log 2>&1 && echo "build with patch: ok" >>$log || echo "build with patch: FAILED" >>$log
 go test -vet=off -count=1 -run "$demo" ./$pkg/ >$out/.demo_with.txt 2>&1; rc_with=$?
 tail -5 $out/.demo_with.txt >>$log
 go test -vet=off -count=1 -run "$existing" -skip "TestNonBlockingBoundedMailbox/With_concurrent|$demo" ./$pkg/ >$out/.existing.txt 2>&1; rc_ex=$?
@@ -28,7 +28,7 @@ python3 - "$src/meta.json" "$out/meta.json" "$rc_with" "$rc_without" "$rc_ex" "$
 import json,sys
 m=json.load(open(sys.argv[1]))
 m["confirmed_by_coordinator"]={"demo_with_patch_exit":int(sys.argv[3]),"demo_without_patch_exit":int(sys.argv[4]),"existing_subset_with_patch_exit":int(sys.argv[5]),
-  "commands":["git apply patch.diff (scratch worktree of /repo HEAD)","go build ./...","go test -vet=off -count=1 -run '%s' ./$pkg/ (with and without the patch; package given on the command line)"%sys.argv[6],"go test -vet=off -count=1 -run '%s' ./$pkg/ (with the patch)"%sys.argv[7]]}
+  "commands":["git apply patch.diff (scratch worktree of /repo HEAD)","go build <all non-main packages>","go test -vet=off -count=1 -run '%s' ./$pkg/ (with and without the patch; package given on the command line)"%sys.argv[6],"go test -vet=off -count=1 -run '%s' ./$pkg/ (with the patch)"%sys.argv[7]]}
 json.dump(m,open(sys.argv[2],"w"),indent=1)
 PY
 rm -f $out/.demo_with.txt $out/.demo_without.txt $out/.existing.txt
